@@ -72,3 +72,11 @@ U("ds_B_replace_3", ["C19"], "h_replace", ["C19/ds_more.c"], ["d_string.c"], pla
   functions=["d_string_replace_text_in_range"], callees={"d_string_erase/insert/ensureStringBufferCanHold": "body", "strstr/strlen/memmove/strncpy": "byte-loop models", "realloc": "stub asserting it is never reached"},
   native={"repo": []}, nobody_ok=["fprintf", "exit", "vsnprintf"],
   assumptions=[NOFAIL, "the pattern is non-empty (an empty pattern makes the replace loop diverge; excluded from the ideal-string model)"])
+
+# modular unit: replace against the CONTRACTS of erase/insert (insert may free the buffer -> dangling pointers show up)
+U("ds_replace_modular_K3", ["C19", "C01"], "h_replace_mod", ["C19/ds_replace.c"], ["d_string.c"], enforce="d_string_replace_text_in_range",
+  replace=["d_string_erase", "d_string_insert"], contracts={"d_string_insert": "d_string_insert__use"}, kind="bounded", bounds={"loop iterations explored<=": 3},
+  cbmc_flags=["--unwind", "4", "--no-unwinding-assertions", "--unwindset", "__CPROVER_contracts_write_set_check_assigns_clause_inclusion.0:12,__CPROVER_contracts_write_set_record_deallocated.0:12"], native=None, min_obligations=20, nobody_ok=["fprintf", "exit"],
+  functions=["d_string_replace_text_in_range"], callees={"d_string_erase": "contract (ds_A_erase)", "d_string_insert": "contract (ds_A_insert)", "strstr/strlen": "contract stubs"},
+  assumptions=[LIBC_ASSUME, NOFAIL, "strstr returns NULL or a pointer into the haystack object at or after its argument",
+               "d_string_insert is used through a usage contract in which realloc always moves the buffer (permitted by the C standard); its length/representation part is the contract proved in ds_A_insert"])
